@@ -41,7 +41,7 @@ ASSUMPTIONS = [
     "reference layer therefore need a dataset of >= 3 variables",
     "the dataset has 2..6 variables in total, the reference layer included",
     "reference layers have an integer dtype and values in 1..k, k = number of data layers selected for that call",
-    "layers are 2-D NumPy-backed, finite or NaN (no +-inf), |v| <= 1e6",
+    "layers are 2-D NumPy-backed; finite, NaN or (one case in six) +-inf cells; finite |v| <= 1e6",
     "first-occurrence order of combine is row-major (C) cell order",
     "popularity: value not asserted (the statement does not define it); only shape, NaN-absorption and locality",
 ]
@@ -120,6 +120,12 @@ def _layout_class(arrs):
 # -------------------------------------------------------------------- oracle
 
 def _stats(t):
+    if any(math.isinf(float(x)) for x in t):
+        # +-inf cells are values like any other; their statistics follow IEEE arithmetic (inf + -inf = NaN)
+        a = np.array([float(x) for x in t], dtype="float64")
+        with np.errstate(all="ignore"):
+            return {"sum": float(a.sum()), "mean": float(a.mean()), "median": float(np.median(a)), "min": float(a.min()), "max": float(a.max()),
+                    "std": float(a.std())}
     fr = [Fraction(x) for x in t]
     n = len(fr)
     s = sum(fr)
@@ -185,6 +191,11 @@ def _mismatch(op, gflat, exp, cells, bad):
     na, ns, wv = [], [], []
     for i, (g, e) in enumerate(zip(gflat, exp)):
         gn = g != g
+        if op.startswith("cell_stats.") and any(isinstance(x, float) and math.isinf(x) for x in cells[i]):
+            # a statistic of infinite values follows IEEE arithmetic (inf - inf = NaN, std of inf = NaN): equal, or both NaN
+            if not ((gn and e != e) or g == e):
+                wv.append(i)
+            continue
         if bad[i]:
             if not gn:
                 na.append(i)
@@ -633,13 +644,14 @@ def ops_cases(draw, max_side, layout_modes=None):
     alpha = draw(st.lists(st.sampled_from(pal), min_size=1, max_size=4, unique=True))
     int_alpha = [v for v in alpha if float(v) == int(v)] or [0, 1]
     int_alpha = sorted(set(int(v) for v in int_alpha))
+    with_inf = draw(st.integers(0, 5)) == 0     # +-inf cells in the float layers (a cell may hold +inf in one layer and -inf in another)
     mode = draw(st.sampled_from(layout_modes or (["allC"] * 5 + ["allF"] * 3 + ["mixed"] * 3 + ["view", "neg", "last", "any", "any"])))
     layers = []
     for i, nm in enumerate(names):
         is_f = kind == "float" or (kind == "mixed" and (i == 0 or draw(st.booleans())))
         if is_f:
             dtype = draw(st.sampled_from(["float64", "float64", "float32"]))
-            data = draw(S.grid(h, w, alpha, specials=["nan"]))
+            data = draw(S.grid(h, w, alpha, specials=["nan", "inf", "-inf"] if with_inf else ["nan"]))
         else:
             dtype = draw(st.sampled_from([d for d in INT_DTYPES if _fits(d, int_alpha)]))
             data = draw(S.grid(h, w, int_alpha))
